@@ -22,6 +22,7 @@ import GdVerif.Run.GenQuake
 import GdVerif.Run.QuakeFaults
 import GdVerif.Run.Unreal2
 import GdVerif.Run.GenUnreal2
+import GdVerif.Run.Unreal2Faults
 import GdVerif.Run.Minecraft
 import GdVerif.Run.GenMinecraft
 import GdVerif.Run.Gs3
@@ -58,6 +59,7 @@ def allEntries : List (String × (List String → String)) := List.flatten [
   quakeEntries,
   quakeFaultEntries,
   unreal2Entries,
+  unreal2FaultEntries,
   McDrv.minecraftEntries,
   gs3Entries,
   gs3FaultEntries,
